@@ -155,7 +155,7 @@ def run(tier, seed):
     chk.add_rule("C03.S.no_backend_code_before_graph", ok, sites, failing)
     ok, sites, failing = frame.rule_dispatch()
     chk.add_rule("C03.S.dispatch_complete", ok, sites, failing)
-    n = 24 if tier == "quick" else 240
+    n = 24 if tier == "quick" else 600
     res = [x for r in harness.pmap(_work, [(seed, i) for i in range(n)]) for x in r]
     res += must_reject()
     cnt = {}
